@@ -46,7 +46,9 @@ def _weight_table(ctx, r):
     b = ctx.body("melvm::opcode::opcodes_car_weight", r)
     adt = ctx.prog.adts.get("melvm::opcode::OpCode")
     variants = [v["name"] for v in adt["variants"]]
-    sw = [(bi, t) for bi, t in b.iter_terms("switch") if sig(b.rec_operand(t["discr"], bi, "T")).startswith("discr(Option::unwrap(core::slice::<impl [T]>::split_first($1))")]
+    FIRSTS = ("discr(Option::unwrap(core::slice::<impl [T]>::split_first($1)).0", "discr(try(core::slice::<impl [T]>::split_first($1)).0",
+              "discr(Option::unwrap(core::slice::<impl [T]>::first($1))", "discr(try(core::slice::<impl [T]>::first($1))", "discr(Option::expect(core::slice::<impl [T]>::split_first($1)")
+    sw = [(bi, t) for bi, t in b.iter_terms("switch") if sig(b.rec_operand(t["discr"], bi, "T")).startswith(FIRSTS) and len(t["targets"]) > 10]
     r.anchor(sw, "match on the first opcode in opcodes_car_weight")
     bi, t = sw[0]
     rets = q.ret_assignments(b)
@@ -85,8 +87,8 @@ def r2_loop_weight(ctx):
     tgt, rets = table["Loop"]
     w = rets[0][2][1][0] if rets and rets[0][2][0] == "tuple" else None
     r.anchor(w, "Loop weight expression")
-    nf = q.arith_nf(w)
-    FIRST = "Option::unwrap(core::slice::<impl [T]>::split_first($1))"
+    nf = q.strip_unwrap(q.arith_nf(w))
+    FIRST = "core::slice::<impl [T]>::split_first($1)"
     ok = False
     detail = sig(nf)[:300]
     if nf[0] == "bin" and nf[1] == "Add":
